@@ -1186,7 +1186,7 @@ class EtreeElementNode(ElementNode):
         elif self.value.text is not None:
             yield from get_atomic_sequence(self.xsd_type, self.value.text, self.nsmap)
         elif self.value.get(XSI_NIL) in ('1', 'true'):
-            yield ''
+            return  # a nilled element has an empty typed value
         else:
             value = getattr(self.xsd_element, 'value_constraint', None)
             yield from get_atomic_sequence(self.xsd_type, value or '')
